@@ -21,6 +21,7 @@ type c10Case struct {
 	E2   string `json:"e2"`
 	Op   string `json:"op,omitempty"`
 	Set  string `json:"atom_set,omitempty"`
+	Sub  int    `json:"max_allowed_subset,omitempty"`
 }
 
 var c10Subsets = func() [][]string {
@@ -182,11 +183,21 @@ func c10RichCompare(cs c10Case) string {
 }
 
 
-// c10VariantObs: the verdicts under each single atom as allowed list plus the sorted extracted set; "" = unusable.
-func c10VariantObs(atoms []string, expr string) string {
+// c10VariantObs: the verdicts under every subset of the atoms of up to maxSub entries (in atom order) plus
+// the sorted extracted set; "" = unusable.
+func c10VariantObs(atoms []string, expr string, maxSub int) string {
 	var b strings.Builder
-	for _, a := range atoms {
-		r := Sat(expr, []string{a})
+	for m := 1; m < 1<<uint(len(atoms)); m++ {
+		if popcount(uint32(m)) > maxSub {
+			continue
+		}
+		var al []string
+		for i, a := range atoms {
+			if m&(1<<uint(i)) != 0 {
+				al = append(al, a)
+			}
+		}
+		r := Sat(expr, al)
 		if r.Panic != "" || r.IsErr {
 			return ""
 		}
@@ -206,11 +217,14 @@ func c10VariantObs(atoms []string, expr string) string {
 
 func c10VariantCompare(cs c10Case) string {
 	v := idVariants(cs.Set)
-	o1, o2 := c10VariantObs(v, cs.E1), c10VariantObs(v, cs.E2)
+	if cs.Sub < 1 {
+		cs.Sub = 1
+	}
+	o1, o2 := c10VariantObs(v, cs.E1, cs.Sub), c10VariantObs(v, cs.E2, cs.Sub)
 	if o1 == "" || o2 == "" || o1 == o2 {
 		return ""
 	}
-	return fmt.Sprintf("rewrite %s: %q gives [verdicts under each of %q] %s, but %q gives %s", cs.Rule, cs.E1, v, o1, cs.E2, o2)
+	return fmt.Sprintf("rewrite %s: %q gives [verdicts under every allowed list of <= %d of %q, in subset order] %s, but %q gives %s", cs.Rule, cs.E1, cs.Sub, v, o1, cs.E2, o2)
 }
 
 func init() {
@@ -506,9 +520,20 @@ func c10Run(c *Ctx) {
 				if !c.Begin("variants " + e1) {
 					continue
 				}
-				o1 := c10VariantObs(v, e1)
+				// two operands: every allowed list of <= 3 variants; three: every single variant
+				sub := 1
+				if n == 2 {
+					sub = 3
+				}
+				o1 := c10VariantObs(v, e1, sub)
+				nl := int64(1) // ExtractLicenses
+				for m := 1; m < 1<<uint(len(v)); m++ {
+					if popcount(uint32(m)) <= sub {
+						nl++
+					}
+				}
 				c.Inc("states")
-				c.Add("transitions", int64(len(v))+1)
+				c.Add("transitions", nl)
 				c.Inc("evaluations")
 				if o1 == "" {
 					c.Inc("skipped_panic")
@@ -529,21 +554,21 @@ func c10Run(c *Ctx) {
 					if e2 == e1 {
 						continue
 					}
-					o2 := c10VariantObs(v, e2)
-					c.Add("transitions", int64(len(v))+1)
+					o2 := c10VariantObs(v, e2, sub)
+					c.Add("transitions", nl)
 					c.Inc("variant_edges")
-					c.Add("traces", int64(len(v))+1)
+					c.Add("traces", nl)
 					c.Inc("nontrivial")
 					c.Outcome("variant-edge:" + a.rule)
 					if o2 != "" && o2 != o1 {
-						cs := c10Case{Kind: "variant-edge", Rule: a.rule, E1: e1, E2: e2, Set: x}
+						cs := c10Case{Kind: "variant-edge", Rule: a.rule, E1: e1, E2: e2, Set: x, Sub: sub}
 						c.Report(Violation{Kind: "c10.case", Class: "variant-edge:" + a.rule, Key: "variants:" + e1 + " => " + e2, Msg: c10VariantCompare(cs), Size: len(e1), Case: mustJSON(cs)})
 					}
 				}
 			}
 		}
 	}
-	c.Bound("variant_rewrites", map[string]any{"sets": vs, "max_leaves": 3, "rewrites": "operand order at every operator; regrouping at the root", "observation": "Satisfies under each single variant + the set ExtractLicenses returns"})
+	c.Bound("variant_rewrites", map[string]any{"sets": vs, "max_leaves": 3, "rewrites": "operand order at every operator; regrouping at the root", "observation": "Satisfies under every allowed list of <= 3 variants (two operands) / every single variant (three operands) + the set ExtractLicenses returns"})
 }
 
 // ---------------------------------------------------------------- supervisor side: walk every edge
